@@ -779,7 +779,8 @@ def run(ctx, args):
     # ---- (1) Lean: build + obligations + axiom audit
     st = lean_check(ctx, ["LlgoVerif.Props.C11"], ["LlgoVerif/Props/C11.lean"],
                     extra_files=["LlgoVerif/Model/Sema.lean", "LlgoVerif/Lemmas/Sema.lean", "LlgoVerif/Spec/Atomics.lean",
-                                 "LlgoVerif/Model/AtomicValue.lean", "LlgoVerif/Lemmas/AtomicValue.lean", GEN_REL, "Driver/C11.lean"],
+                                 "LlgoVerif/Model/AtomicValue.lean", "LlgoVerif/Lemmas/AtomicValue.lean",
+                                 "LlgoVerif/Model/Mutex.lean", "LlgoVerif/Lemmas/Mutex.lean", GEN_REL, "Driver/C11.lean"],
                     leanchecker=(ctx.tier == "thorough"))
     for name, s in st.items():
         if s != "ok":
@@ -987,6 +988,7 @@ def run(ctx, args):
     ctx.coverage["samples"] = samples + [{"atomics_row": entries[0]["fn"] + ": " + " ; ".join(entries[0]["body"])} if entries else {}]
     ctx.coverage["code_variant"] = {"ticketLess": ticket_less, "oneBroadcast": one_broadcast, "casRetry": cas_retry}
     ctx.coverage["e2e"] = e2e_stats
+    layered_stats.pop("_ptraces", None)      # observed access traces of the patched Mutex (kept for a future model replay)
     ctx.coverage["layered_sync"] = layered_stats
     ctx.coverage["atomic_value"] = vstats
     ctx.coverage["fine_mode"] = fstats
@@ -1022,21 +1024,49 @@ SYNC_MAPS = [('"internal/race"', '"%s/race"' % native.VN, "race"), ('"internal/s
              ('"sync/atomic"', '"%s/latomic"' % native.VN, "atomic")]
 
 
+# llgo-OWNED sync sources (everything else of `sync` comes from the Go toolchain and is layered on sema_llgo.go):
+#   runtime/_patch/internal/sync/mutex.go        patched into internal/sync for go1.26  -> verbatim copy, scenarios pmutex / pmutex-try
+#   runtime/_patch/internal/sync/runtime.go      body-less linkname pulls of the hooks  -> replaced by harness/c11/pisync_runtime.go.txt
+#   runtime/_patch/internal/sync/hashtriemap.go  (//llgo:skipall) HashTrieMap for sync.Map -> NOT covered (sync.Map is outside C11's clauses)
+#   runtime/internal/lib/sync/atomic/value.go    atomic.Value                           -> Model/AtomicValue.lean + native tie (above)
+#   runtime/internal/lib/sync/atomic/{atomic,type}.go  intrinsic declarations / typed wrappers -> tie (A) / end to end
+PATCH_SYNC = os.path.join("runtime", "_patch", "internal", "sync")
+PATCH_HOOKS = ["runtime_SemacquireMutex", "runtime_Semrelease", "runtime_canSpin", "runtime_doSpin", "runtime_nanotime", "throw", "fatal"]
+
+
+def patched_mutex_source():
+    """runtime/_patch/internal/sync/mutex.go of the working tree, verbatim but for the build-tag line and the import paths"""
+    path = os.path.join(REPO, PATCH_SYNC, "mutex.go")
+    if not os.path.exists(path):
+        raise HarnessBuildError("source missing: " + path)
+    src = open(path).read()
+    src = re.sub(r'^//go:build [^\n]*\n', "", src, count=1, flags=re.M)
+    out, edits = native.rewrite_source(src, package="sync")
+    hooks = open(os.path.join(REPO, PATCH_SYNC, "runtime.go")).read()
+    declared = sorted(re.findall(r'^func (\w+)\(', hooks, flags=re.M))
+    if declared != sorted(PATCH_HOOKS):
+        raise HarnessBuildError("runtime/_patch/internal/sync/runtime.go declares hooks %s; the stand-ins supply %s" % (declared, sorted(PATCH_HOOKS)))
+    return out
+
+
 def build_layered(ctx):
-    """Go's own sync sources (toolchain in use) + internal/sync/mutex.go on top of the verbatim sema_llgo.go"""
+    """Go's own sync sources (toolchain in use) + internal/sync/mutex.go on top of the verbatim sema_llgo.go,
+    and llgo's own patched Mutex (runtime/_patch/internal/sync/mutex.go) on the same semaphore"""
     for m in [LAT] + SYNC_MAPS:
         if m not in native.IMPORT_MAP:
             native.IMPORT_MAP.insert(0, m)
     rd = lambda *q: open(os.path.join(H, *q)).read()
     mains = {"main.go": rd("syncmain.go.txt"), "lrt/zz_access.go": rd("lrt_access.go.txt"), "lrt/zz_reset.go": reset_source(),
              "latomic/atomic.go": rd("standins", "latomic", "atomic.go"), "race/race.go": rd("standins", "race", "race.go"),
-             "isync/zz_runtime.go": rd("isync_runtime.go.txt"), "gsync/zz_runtime.go": rd("gsync_runtime.go.txt")}
+             "isync/zz_runtime.go": rd("isync_runtime.go.txt"), "gsync/zz_runtime.go": rd("gsync_runtime.go.txt"),
+             "pisync/zz_runtime.go": rd("pisync_runtime.go.txt")}
     other = {SEMA_SRC: ("lrt", "lrt"), os.path.join(GOSRC, "internal", "sync", "mutex.go"): ("isync", "sync")}
     for f in SYNC_FILES:
         other[os.path.join(GOSRC, "sync", f)] = ("gsync", "sync")
     for q in other:
         if not os.path.exists(os.path.join(REPO, q)):
             raise HarnessBuildError("source missing: " + q)
+    mains["pisync/mutex.go"] = patched_mutex_source()
     return native.make_native(ctx, [], {}, mains, other=other, name="native-c11-sync")
 
 
@@ -1044,13 +1074,15 @@ def judge_layered(scn, n, end, evs, final):
     """contracts of Go's sync primitives, judged on the event log of the real stack. -> [(key or None, what)]"""
     fails = []
     if end.startswith("panic"):
-        return [(None, "the sync stack panicked: " + end)]
-    if scn == "mutex":
+        if not scn.startswith("pmutex"):
+            return [(None, "the sync stack panicked: " + end)]
+        fails.append((None, "the Mutex code stopped with " + end))      # after the exclusion verdicts below
+    if scn in ("mutex", "pmutex", "pmutex-try"):
         inside = set()
         for (k, t, w) in evs:
             if w == "enter":
                 if inside:
-                    fails.append((None, "Mutex: thread %d entered the critical section at step %d while %s is inside" % (t, k, sorted(inside))))
+                    fails.insert(0, (None, "Mutex: thread %d entered the critical section at step %d while %s is inside" % (t, k, sorted(inside))))
                 inside.add(t)
             elif w == "leave":
                 inside.discard(t)
@@ -1151,6 +1183,19 @@ def layered(ctx, quick, ticket_less, cas_retry, only=None):
     n_runs = 1600 if quick else 60000
     scns = ["mutex", "rwmutex", "rwmutex", "waitgroup", "once", "cond-signal", "cond-broadcast", "cond-nosignal"]
     lines, metas = [], []
+    # llgo's own Mutex source: boundary stream first (clock steps around the 1 ms threshold, strongest bias towards
+    # newcomers inside the hand-off window), then the random stream
+    n_p = 1200 if quick else 40000
+    for i in range(n_p):
+        scn = "pmutex-try" if i % 5 == 4 else "pmutex"
+        n = rng.choice([3, 3, 4, 4, 5, 6])
+        it = rng.choice([2, 3, 4, 5])
+        ns = rng.choice([0, 1000, 100000, 250000, 500000, 1000001, 2000000, 2000000]) if i >= 64 else [999999, 1000000, 1000001, 250000][i % 4]
+        seed = rng.getrandbits(40) + 1
+        if i < 64:
+            seed = seed - seed % 8 + 7
+        lines.append("sync %s %d %d %d %d %d %d" % (scn, n, it, seed, 6000, rng.choice([0, 0, 20, 60]), ns))
+        metas.append((scn, n, it))
     for i in range(n_runs):
         scn = scns[i % len(scns)]
         n = rng.choice([2, 3, 3, 4])
@@ -1166,6 +1211,9 @@ def layered(ctx, quick, ticket_less, cas_retry, only=None):
         raise RuntimeError("layered sync harness died: %d/%d answers: %s" % (len(out), len(lines), err[-1500:]))
     st = {"runs": len(lines), "per_scenario": {}, "ends": {}, "events": 0, "contract_failures": 0,
           "go_sources": "GOROOT/src/sync/{%s} + internal/sync/mutex.go of %s" % (",".join(SYNC_FILES), os.path.basename(GO124))}
+    ptraces = []
+    pcov = {"runs": 0, "starvation_mode_entered": 0, "handoff_windows": 0, "newcomer_cas_inside_handoff_window": 0,
+            "newcomer_registered_as_waiter_inside_window": 0}
     for line, (scn, n, it), o in zip(lines, metas, out):
         end, e, final = o.split(" # ")
         evs = []
@@ -1173,6 +1221,9 @@ def layered(ctx, quick, ticket_less, cas_retry, only=None):
             for x in e.split(","):
                 k, t, w = x.split(":")
                 evs.append((int(k), int(t), w))
+        if scn.startswith("pmutex"):
+            ptraces.append((line, n, end, evs))
+            pmutex_coverage(evs, pcov)
         st["per_scenario"][scn] = st["per_scenario"].get(scn, 0) + 1
         st["ends"][end.split(":")[0]] = st["ends"].get(end.split(":")[0], 0) + 1
         st["events"] += len(evs)
@@ -1184,6 +1235,39 @@ def layered(ctx, quick, ticket_less, cas_retry, only=None):
                 st["unclassified_failures"] = st.get("unclassified_failures", 0) + 1
                 if st["unclassified_failures"] > MAX_UNCLASSIFIED:
                     continue
-            ctx.report(key or ("layered:" + line)[:300], what + "  [Go's own sync sources on the verbatim sema_llgo.go, request `%s`]" % line,
+            ctx.report(key or ("layered:" + line)[:300], what + ("  [llgo's own runtime/_patch/internal/sync/mutex.go (verbatim) on the verbatim sema_llgo.go, "
+                       "settable clock, request `%s` = scenario threads iterations seed(schedule) maxsteps spurious-permille ns-per-step]" if scn.startswith("pmutex")
+                       else "  [Go's own sync sources on the verbatim sema_llgo.go, request `%s`]") % line,
                        {"request": line, "end": end, "events": e[-1500:], "final": final})
+    st["patched_mutex"] = pcov
+    st["_ptraces"] = ptraces
     return st
+
+
+def pmutex_coverage(evs, cov):
+    """how often the runs of llgo's own Mutex reach starvation mode and a newcomer inside the hand-off window
+    (state word: starving set, locked clear), read off the observed accesses to the state word"""
+    cov["runs"] += 1
+    word, starv, win, inwin = 0, False, False, False
+    hit = reg = False
+    for (k, t, w) in evs:
+        f = w.split(".")
+        if f[0] not in ("cas", "add"):
+            continue
+        old, new, ok = int(f[1]), int(f[2]), f[3] == "1"
+        if inwin and f[0] == "cas" and word & 5 == 4:
+            if old == word:
+                hit = True
+                if ok and new == word + 8:
+                    reg = True
+        if ok:
+            word = new
+        if word & 4:
+            starv = True
+        inwin = word & 5 == 4
+        win = win or inwin
+    cov["starvation_mode_entered"] += starv
+    cov["handoff_windows"] += win
+    cov["newcomer_cas_inside_handoff_window"] += hit
+    cov["newcomer_registered_as_waiter_inside_window"] += reg
+
